@@ -319,6 +319,12 @@ func c10WrapImpl(c *Ctx, o xOpts, mode uint64, x []byte, existing []byte) Val {
 	case 3:
 		dstP = srcP
 		err = carv2.WrapV1File(srcP, dstP)
+	case 5:
+		dstP = placeDest(d, srcP, VL{VT("symlink")})
+		err = carv2.WrapV1File(srcP, dstP)
+	case 6:
+		dstP = placeDest(d, srcP, VL{VT("hardlink")})
+		err = carv2.WrapV1File(srcP, dstP)
 	default:
 		err = func() error {
 			src, err := os.Open(srcP)
@@ -347,6 +353,28 @@ func placeDest(d string, srcP string, dest Val) string {
 	switch string(l[0].(VT)) {
 	case "same":
 		return srcP
+	// the same file under another path string (in-place semantics all the same)
+	case "symlink":
+		p := filepath.Join(d, "c10alias.car")
+		if err := os.Symlink(srcP, p); err != nil {
+			panic(err)
+		}
+		return p
+	case "hardlink":
+		p := filepath.Join(d, "c10alias.car")
+		if err := os.Link(srcP, p); err != nil {
+			panic(err)
+		}
+		return p
+	case "unclean":
+		return filepath.Dir(srcP) + "/./" + filepath.Base(srcP)
+	case "relative":
+		if wd, err := os.Getwd(); err == nil {
+			if rel, err := filepath.Rel(wd, srcP); err == nil {
+				return rel
+			}
+		}
+		return filepath.Dir(srcP) + "/../" + filepath.Base(filepath.Dir(srcP)) + "/" + filepath.Base(srcP)
 	case "file":
 		p := filepath.Join(d, "dst.car")
 		mustWrite(p, []byte(l[1].(VB)))
@@ -647,4 +675,94 @@ func c10CountRecords(p []byte) uint64 {
 		}
 	}
 	return total
+}
+
+// ---- xattach ------------------------------------------------------------------------------
+// input (file | (tabsent), index bytes, offset, expect): AttachIndex(path, index.ReadFrom(bytes), offset)
+func c10IndexOf(ib []byte) index.Index {
+	idx, err := index.ReadFrom(bytes.NewReader(ib))
+	if err != nil {
+		panic(err)
+	}
+	return idx
+}
+
+func runAttachImpl(c *Ctx, f Val, ib []byte, off uint64) Val {
+	return c10Guarded(c10DestLen(f)+len(ib)+int(off&0xffffff), func() Val {
+		d := xdir(c)
+		defer os.RemoveAll(d)
+		p := filepath.Join(d, "f.car")
+		if l := f.(VL); string(l[0].(VT)) == "file" {
+			mustWrite(p, []byte(l[1].(VB)))
+		}
+		err := carv2.AttachIndex(p, c10IndexOf(ib), off)
+		return VL{xerr(err), c10FileVal(p)}
+	})
+}
+
+// ---- xseq ---------------------------------------------------------------------------------
+// input (x, ops, hdr table, c): a sequence of transforms applied to one file.
+// op = (twrap opts) | (textract opts) | (treplace opts roots) | (tattach indexbytes off)
+// obs = ((error per step) final file)
+func runSeqImpl(c *Ctx, x []byte, ops VL) Val {
+	return c10Guarded(8*len(x)+(1<<20), func() Val {
+		d := xdir(c)
+		defer os.RemoveAll(d)
+		cur := filepath.Join(d, "f0.car")
+		mustWrite(cur, x)
+		errs := VL{}
+		for i, opv := range ops {
+			op := opv.(VL)
+			var err error
+			switch string(op[0].(VT)) {
+			case "wrap":
+				o := xoptsOfVal(op[1])
+				next := filepath.Join(d, fmt.Sprintf("f%d.car", i+1))
+				err = func() error {
+					src, err := os.Open(cur)
+					if err != nil {
+						return err
+					}
+					defer src.Close()
+					dst, err := os.Create(next)
+					if err != nil {
+						return err
+					}
+					defer dst.Close()
+					if err := carv2.WrapV1(src, dst, o.v2()...); err != nil {
+						return err
+					}
+					return dst.Close()
+				}()
+				if err == nil {
+					// the index order inside equal-digest runs is sort.Sort's: canonicalise in place
+					if b, rerr := os.ReadFile(next); rerr == nil {
+						st, _ := os.Stat(cur)
+						cb, _ := canonIndex(b, 51+int(st.Size()))
+						mustWrite(next, cb)
+					}
+					cur = next
+				}
+			case "extract":
+				err = carv2.ExtractV1File(cur, cur, xoptsOfVal(op[1]).v2()...)
+			case "replace":
+				err = carv2.ReplaceRootsInFile(cur, rootsOfVal(op[2]), xoptsOfVal(op[1]).v2()...)
+			case "attach":
+				err = carv2.AttachIndex(cur, c10IndexOf([]byte(op[1].(VB))), uint64(op[2].(VN)))
+			}
+			errs = append(errs, xerr(err))
+		}
+		return VL{errs, c10FileVal(cur)}
+	})
+}
+
+func init() {
+	registerReplay("xattach", func(c *Ctx, in Val) Val {
+		l := in.(VL)
+		return runAttachImpl(c, l[0], []byte(l[1].(VB)), uint64(l[2].(VN)))
+	})
+	registerReplay("xseq", func(c *Ctx, in Val) Val {
+		l := in.(VL)
+		return runSeqImpl(c, []byte(l[0].(VB)), l[1].(VL))
+	})
 }
